@@ -27,6 +27,10 @@ UNIT = ("opaque", "unit")
 SOLVER_STATS = {"time": 0.0, "queries": 0}  # wall time inside z3 check() calls of the static obligations and path pruning
 
 
+class InfeasiblePath(Exception):
+    """the current path contradicts itself (e.g. a variant is viewed as another variant)"""
+
+
 class Outcome:
     """End of one atomic segment along one path."""
 
@@ -298,8 +302,11 @@ class Executor:
                 if visits[vk] > self.loop_bound:
                     raise Unsupported(f"loop bound {self.loop_bound} exceeded at bb{bb} of {body.name} (raise the bound or tighten the state domain)")
                 blk = body.blocks[bb]
-                for a in blk.stmts:
-                    self.write(st, a.dst, self.eval_rv(st, a.rv))
+                try:
+                    for a in blk.stmts:
+                        self.write(st, a.dst, self.eval_rv(st, a.rv))
+                except InfeasiblePath:
+                    break
                 t = blk.term
                 if t.kind == "goto":
                     bb = t.args["target"]
